@@ -392,6 +392,8 @@ func multilinePrintableName(info *NodeInfo) string {
 	if infoCopy.File != "" {
 		infoCopy.File = filepath.Base(infoCopy.File)
 	}
+	infoCopy.File = escapeForDot(infoCopy.File)
+	infoCopy.Objfile = escapeForDot(infoCopy.Objfile)
 	return strings.Join(infoCopy.NameComponents(), `\n`) + `\n`
 }
 
